@@ -46,3 +46,18 @@ Proof. intros Hi Hn Hc. destruct (rotate_log_spec m init n s Hi Hn Hc) as (s' & 
   assert (Hd2 : n mod 3 <> (n + 1) mod 3).
   { intro. pose proof (Z.div_mod n 3 ltac:(lia)). pose proof (Z.div_mod (n+1) 3 ltac:(lia)). lia. }
   rewrite (Hoth _ H2 Hd1), (Hoth _ H0 Hd2). rewrite !Z.eqb_refl. reflexivity. Qed.
+
+Lemma oracle_ppos_model m init n0 bits off0 :
+  in_i32 init = true -> 0 <= n0 < two31 -> 0 <= bits <= 30 -> 0 <= off0 < two32 ->
+  holds_ppos init n0 bits off0 (model_ppos m init n0 bits off0) = true.
+Proof. intros Hi Hn Hb Ho. unfold holds_ppos, model_ppos.
+  assert (Hw : in_i32 (wrap32 (init + n0)) = true) by apply wrap32_range.
+  rewrite term_id_of_raw_off by assumption.
+  assert (Hp : 1 <= 2 ^ bits <= two31) by (apply pow2_bounds; lia).
+  assert (Hp30 : 2 ^ bits <= 2 ^ 30) by (apply Z.pow_le_mono_r; lia).
+  assert (Hoff : term_offset_of (raw_tail_of_term (wrap32 (init + n0)) + off0) (2 ^ bits) = Z.min off0 (2 ^ bits)).
+  { unfold term_offset_of, raw_tail_of_term.
+    rewrite Z.add_comm, Z.mod_add by (unfold two32; lia). rewrite Z.mod_small by lia.
+    apply wrap32_id. unfold in_i32, two31, two32 in *. change (2 ^ 30) with 1073741824 in Hp30. lia. }
+  rewrite Hoff. rewrite compute_position_spec by (try assumption; lia).
+  unfold spec_position, ok_eq. apply Z.eqb_refl. Qed.
